@@ -3,24 +3,27 @@ import os
 
 from .. import rt, stubs
 from ..engine import Harness
+from . import idxfam as F
 
 ID = "C05"
 M = {}
 
 META = {
     "level": "other",
-    "functions": {"gaftools.cli.view": ["get_unstable", "search", "run"]},
+    "functions": {"gaftools.cli.view": ["get_unstable", "search", "run"], "gaftools.cli.index": ["run"]},
     "explanation": "Bounded symbolic execution (CrossHair/z3) of the real view.get_unstable / view.search and of view.run "
     "with --region.  The index holds K aligned nodes of the contig with symbolic start/end (sorted, disjoint, symbolic gaps "
     ">= 0 between them because unaligned nodes are not indexed), optionally nodes of a second contig; each region has symbolic "
     "bounds 0 <= a <= b.  Oracle: the nodes with start <= b and a < end; the records printed by view.run(regions) are those "
     "of view.run(nodes = that set) in the same execution; CommandLineError iff the set has no records; loops carry fuel "
     "4K+8 so non-termination is a failing outcome.",
-    "bounds": {"quick": "K <= 4 indexed nodes, 1-2 regions, second contig with 1 node", "thorough": "K <= 6, up to 3 regions"},
+    "bounds": {"quick": "K <= 4 indexed nodes, 1-2 regions, second contig with 1 node; end to end (real index.run then view.run -r, also as the "
+                        "second index run of the process on another build of the graph): 4 records over 6 segments, one region", "thorough": "K <= 6, up to 3 regions"},
     "out": ["K > 6", "malformed region strings", "regions on contigs that are not in the index"],
     "assumptions": ["the pickled index is an association list with dict interface (keys(), [key]) so symbolic node intervals need no hashing",
                     "GAF reader stub: read_line(offset) returns the record registered at that offset"],
 }
+META["explanation"] += '  e2e/*: real index.run (optionally as the second index run of the execution, on another build of the graph with the same segment names) followed by the real view.run -r on its output.'
 
 
 class AssocIndex:
@@ -67,6 +70,7 @@ def setup():
     import gaftools.cli as C
 
     M.update(V=V, GA=GA, C=C)
+    F.setup()
 
 
 def harnesses(tier):
@@ -79,6 +83,8 @@ def harnesses(tier):
     hs.append({"id": "run/K2/r2", "params": {"kind": "run", "k": 2, "regions": 2}, "timeout": 900})
     hs.append({"id": "run/K2/r2-other-contig", "params": {"kind": "run", "k": 2, "regions": 2, "other": True}, "timeout": 900})
     hs.append({"id": "run/K2/r3-revisit-contig", "params": {"kind": "run", "k": 2, "regions": 3, "other": True}, "timeout": 1800})
+    for prior in (0, 1):
+        hs.append({"id": "e2e/index+region/%s" % ("second-graph-in-process" if prior else "first"), "params": {"kind": "e2e", "prior": prior, "k": 0}, "timeout": 900})
     hs.append({"id": "search/digits", "params": {"kind": "digits", "k": 3}, "timeout": 600})
     if tier == "thorough":
         hs.append({"id": "run/K3/r2", "params": {"kind": "run", "k": 3, "regions": 2}, "timeout": 2400})
@@ -168,7 +174,105 @@ def build_digits():
     return Harness([("sa", "int"), ("sb", "int")], ["0 <= sa <= %d and 0 <= sb <= %d" % (n, n)], case, fuel=40)
 
 
+E2E_WALKS = [">s0>s1", ">s2", ">s1>a1", "<b0"]
+# the same segment names cut differently (another build of the graph)
+E2E_LAY2 = {"s0": ("chr1", 0, 4, 0), "s1": ("chr1", 4, 8, 0), "s2": ("chr1", 12, 18, 0), "a0": ("hapA", 100, 4, 1), "a1": ("hapA", 110, 10, 1), "b0": ("hapB", 7, 2, 2)}
+
+
+def e2e_want(a, b):
+    nodes = [n for n, (sn, so, ln, sr) in F.LAY.items() if sn == "chr1" and so <= b and a < so + ln]
+    return nodes, [i for i, w in enumerate(E2E_WALKS) if any(n in nodes for _, n in F.parse_walk(w))]
+
+
+def build_e2e(params):
+    """the real index.run (optionally after an index.run on another build of the graph in the same process) followed by the real
+    view.run --region on its output"""
+    n = len(E2E_WALKS)
+
+    def case(a, b, c0, c1, c2, c3, c4):
+        V, C = M["V"], M["C"]
+        e = stubs.env()
+        cookies = [c0, c1, c2, c3, c4]
+        saved = dict(F.LAY)
+        try:
+            if params["prior"]:
+                recs0 = F.records_for("unstable", E2E_WALKS, [(0, 1)] * n)
+                F.run_index(recs0, cookies)
+                F.LAY.clear()
+                F.LAY.update(E2E_LAY2)
+            recs = F.records_for("unstable", E2E_WALKS, [(0, 1)] * n)
+            F.run_index(recs, cookies)
+            nodes, want = e2e_want(a, b)
+            rt.set_fuel(60)
+            try:
+                V.run("in.gaf", output="o.gaf", index="in.gaf.gvi", regions=[region_str("chr1", a, b)], nodes=[])
+                raised = False
+            except C.CommandLineError:
+                raised = True
+            if not want:
+                return None if raised else "no aligned node under the region but no 'nothing found' error"
+            if raised:
+                return "CommandLineError although nodes %r under the region have records" % (nodes,)
+            out = [l.split("\t")[0] for l in e.files["o.gaf"].lines]
+            wantn = [F.rname(i).split(" ")[0] for i in want]
+            if out != wantn:
+                return "region selects nodes %r: expected records %r, got %r" % (nodes, wantn, out)
+            return None
+        finally:
+            F.LAY.clear()
+            F.LAY.update(saved)
+
+    return Harness([("a", "int"), ("b", "int")] + [("c%d" % i, "int") for i in range(5)], ["0 <= a <= b <= 40 and 0 <= c0 < c1 < c2 < c3 < c4"], case, fuel=60)
+
+
+def replay_e2e(params, model, wd):
+    import gaftools.cli.view as V
+    import gaftools.cli.index as I
+    from gaftools.cli import CommandLineError
+
+    a, b = model["args"][:2]
+    n = len(E2E_WALKS)
+    saved = dict(F.LAY)
+    try:
+        lays = [saved, E2E_LAY2] if params["prior"] else [saved]
+        for k, lay in enumerate(lays):
+            F.LAY.clear()
+            F.LAY.update(lay)
+            d = os.path.join(wd, "run%d" % k)
+            os.makedirs(d)
+            recs = F.records_for("unstable", E2E_WALKS, [(0, 1)] * n)
+            gfa, gaf, lines = F.write_real(d, recs)
+            I.run(gaf, gfa)
+        nodes, want = e2e_want(a, b)
+        out = os.path.join(wd, "o.gaf")
+        res = "ok"
+        try:
+            V.run(gaf, output=out, regions=["chr1:%d-%d" % (a, b)], nodes=[])
+        except CommandLineError:
+            res = "nothing-found"
+        except BaseException as e:  # noqa
+            res = "error:%s: %s" % (type(e).__name__, e)
+        import gc
+
+        gc.collect()
+        got = [l.split("\t")[0] for l in open(out).read().splitlines()] if os.path.exists(out) else []
+        wantn = [F.rname(i).split(" ")[0] for i in want]
+        files = {"gaf": lines, "gfa": F.gfa_lines(), "region": "chr1:%d-%d" % (a, b), "output": got, "result": res,
+                 "history": "gaftools index on another build of the graph earlier in the same process" if params["prior"] else "single run"}
+        if res.startswith("error"):
+            return {"reproduced": True, "key": "C05:e2e:internal-error", "what": res, "files": files}
+        if (res == "nothing-found") != (not want) or (want and got != wantn):
+            return {"reproduced": True, "key": "C05:e2e:%s" % ("after-prior-index" if params["prior"] else "single"),
+                    "what": "index + view -r chr1:%d-%d returned %r (%s); nodes under the region %r have records %r" % (a, b, got, res, nodes, wantn), "files": files}
+        return {"reproduced": False, "detail": "index + view -r match", "files": files}
+    finally:
+        F.LAY.clear()
+        F.LAY.update(saved)
+
+
 def build(params):
+    if params["kind"] == "e2e":
+        return build_e2e(params)
     if params["kind"] == "digits":
         return build_digits()
     k = params["k"]
@@ -273,6 +377,8 @@ def replay(params, model, wd):
     import gaftools.cli.index as I
     from gaftools.cli import CommandLineError
 
+    if params["kind"] == "e2e":
+        return replay_e2e(params, model, wd)
     k = params["k"]
     a_ = model["args"]
     if params["kind"] == "digits":
